@@ -13,14 +13,19 @@ THEOREMS = [
     "C02.lock_on_active_once",
     "C02.activation_group_one_per_pass",
     "C02.activation_group_fires_first_true",
+    "C02.set_debug_transparent",
+    "C02.workflow_step_is_focus_then_execute",
+    "C02.calls_are_history",
 ]
 N = {"quick": 12000, "thorough": 150000}
 EXHAUSTIVE = {"quick": False, "thorough": False}
 # C02's oracle uses the counter / fixpoint predicates of C03.Spec, so those files are audited as well
-LEAN_FILES = ["RreModel/C03/Model.lean", "RreModel/C03/Spec.lean"]
+LEAN_FILES = ["RreModel/C03/Model.lean", "RreModel/C03/Spec.lean", "RreModel/C02/Api.lean", "RreModel/C02/ApiLemmas.lean"]
 RULE = ("cases = corpus (incl. the F-C02 witness) + N random histories of 1..5 API calls on one RustRuleEngine "
         "(execute_at_time(t), execute_with_callback, set_agenda_focus, pop, clear, reset_no_loop_tracking, "
-        "activate_agenda_group, KB add/remove/enable/disable, facts.set) over rule sets of 2..8 rules with salience from "
+        "activate_agenda_group, KB add/remove/enable/disable, facts.set; and the wrappers: plain execute, set_debug_mode, the KB calls "
+        "through knowledge_base_mut(), knowledge_base().clear(), execute_workflow_step(g), execute_workflow([g..]); 1 case in 12 on an engine "
+        "built with RustRuleEngine::new = default configuration) over rule sets of 2..8 rules with salience from "
         "{i32::MIN,-5,0,0,7,7,i32::MAX}, all combinations of enabled/no-loop/lock-on-active, 2..3 agenda groups "
         "(MAIN implicit and explicit), 0..2 activation groups, date windows at 9,10,11,19,20,21,29,30,31 around the evaluation "
         "timestamps 10/20/30 and around 'now' for the callback twin, Set / field+k / ActivateAgendaGroup actions, max_cycles in {1,2,3,5}. "
@@ -30,7 +35,9 @@ RULE = ("cases = corpus (incl. the F-C02 witness) + N random histories of 1..5 A
         "a negative offset puts the text on 31 December of the year before); the DateTime<Utc> twins with_date_effective / with_date_expires "
         "(instant built by chrono arithmetic). A date-window family (N/12 cases: 2..5 always-true rules, each with a window on or next to an "
         "evaluation timestamp, mostly offset strings, every timestamp 10/20/30 visited in random order, sometimes the callback twin) "
-        "concentrates on the boundaries. "
+        "concentrates on the boundaries; a focus-history family (N/5: long set/pop/clear/activate/workflow-step histories with executes in the "
+        "middle) and an abort family (N/20: an execute that returns Err or ends at the bound after activation-group rules fired, repaired or "
+        "not, then further executes). "
         "Each case is run on the real engine (firing sequence through the callback and through marker actions for execute_at_time, "
         "result counters, get_active_agenda_group, facts after every call) and on the Lean model; the observation lines are diffed and the "
         "Spec clauses (C02.Ref.scan = no-loop once / lock-on-active once per activation over the whole history; fired rules enabled, in "
@@ -46,7 +53,7 @@ TRUSTED = [
     "the knowledge-base vector is modelled sequentially (stable insertion sort); its concurrent behaviour is C15's",
 ]
 ASSUMPTIONS = [
-    "timeout = None; no custom functions; the only custom action is the harness's marker, which never fails",
+    "timeout = None (30 s, never reached, for the engines built with RustRuleEngine::new); scheduled tasks outside (cases with workflow calls never have a ready task); no custom functions; the only custom action is the harness's marker, which never fails",
     "rule names, agenda and activation groups are identifiers (Nat) mapped to strings r<n>, MAIN/G<g>, A<a>; salience within i32",
     "dates are abstract seconds mapped order-preservingly to 2001-01-01T00:00:ss / 2201-01-01T00:00:ss so that the wall clock of execute_with_callback lies strictly between; "
     "the UTC-offset renderings of an instant are computed by the harness (date_str_off) and denote the same instant by RFC 3339; the evaluation timestamps of "
